@@ -239,6 +239,9 @@ func C06(c *core.Ctx) {
 			}
 			var entry ssa.Value
 			what := "routes"
+			if okR && isFreshObject(fa.X) {
+				return // a snapshot / newly created entry, not the table's own
+			}
 			if okR {
 				entry = fa.X
 			} else if okC {
@@ -275,19 +278,46 @@ func C06(c *core.Ctx) {
 	}
 	c.Floor("R6.4", "route mutation stores", nMut, 5)
 	// face removal → CleanUpFace
-	if rm := c.Fn("R6.4", "fw/face", "Table", "Remove"); rm != nil {
-		calls := core.FindCalls(rm, core.CalleeID{Pkg: "fw/table", Recv: "RibEntry", Name: "CleanUpFace"})
-		ok := len(calls) == 1
-		if ok {
-			_, a := core.CallArgs(calls[0].Common())
-			ok = a[0] == ssa.Value(rm.Params[1]) && core.MustFollow(rm, core.Point{Block: rm.Blocks[0], Idx: 0}, func(in ssa.Instruction) bool { return in == ssa.Instruction(calls[0]) }, nil).OK
-		}
-		c.Decide(ok, "R6.4", "face-removal-cleans-rib", p.Pos(rm.Pos()), "face.Table.Remove always calls Rib.CleanUpFace(id)", "removing a face does not clean its routes out of the RIB")
+	cu := ribCleanupWorker(p)
+	if cu == nil {
+		c.Und("R6.4", "anchor:rib-cleanup-worker", "-", "no RIB function that removes the routes of a face from an entry and recurses into the children was found")
 	}
-	if cu := c.Fn("R6.4", "fw/table", "RibEntry", "CleanUpFace"); cu != nil {
+	if rm := c.Fn("R6.4", "fw/face", "Table", "Remove"); rm != nil && cu != nil {
+		// Remove calls the worker, or a wrapper whose every path calls the worker, with its id
+		var call ssa.Instruction
+		core.Instrs(rm, func(in ssa.Instruction) {
+			ci, ok := in.(ssa.CallInstruction)
+			if !ok {
+				return
+			}
+			sc := ci.Common().StaticCallee()
+			if sc == nil {
+				return
+			}
+			_, a := core.CallArgs(ci.Common())
+			if len(a) != 1 || a[0] != ssa.Value(rm.Params[1]) {
+				return
+			}
+			if sc == cu {
+				call = in
+				return
+			}
+			// wrapper: forwards its own parameter to the worker on every path
+			for _, wc := range core.FindCalls(sc, core.FuncID(cu)) {
+				_, wa := core.CallArgs(wc.Common())
+				if len(wa) == 1 && wa[0] == ssa.Value(sc.Params[1]) && core.MustFollow(sc, core.Point{Block: sc.Blocks[0], Idx: 0}, func(x ssa.Instruction) bool { return x == ssa.Instruction(wc) }, nil).OK {
+					call = in
+				}
+			}
+		})
+		ok := call != nil && core.MustFollow(rm, core.Point{Block: rm.Blocks[0], Idx: 0}, func(in ssa.Instruction) bool { return in == call }, nil).OK
+		c.Decide(ok, "R6.4", "face-removal-cleans-rib", p.Pos(rm.Pos()), "face.Table.Remove always reaches the RIB cleanup of that face id", "removing a face does not clean its routes out of the RIB")
+	}
+	if cu != nil {
+		c.Funcs[core.FuncName(cu)] = true
 		r := ssa.Value(cu.Params[0])
 		okRec := false
-		for _, ci := range core.FindCalls(cu, core.CalleeID{Pkg: "fw/table", Recv: "RibEntry", Name: "CleanUpFace"}) {
+		for _, ci := range core.FindCalls(cu, core.FuncID(cu)) {
 			rv, a := core.CallArgs(ci.Common())
 			if rangeComponent(rv, 1, func(v ssa.Value) bool { return isFieldLoad(v, r, "children") }) && a[0] == ssa.Value(cu.Params[1]) {
 				h := loopHeader(ci.Block())
@@ -374,4 +404,40 @@ func containsBlock(bs []*ssa.BasicBlock, b *ssa.BasicBlock) bool {
 		}
 	}
 	return false
+}
+
+// ribCleanupWorker discovers the RIB function that removes the routes of one face from an
+// entry and recurses into the entry's children (by structure, not by name): it compares
+// route.FaceID with one of its parameters, stores to RibEntry.routes and calls itself.
+func ribCleanupWorker(p *core.Prog) *ssa.Function {
+	for _, fn := range p.FuncsIn(core.ModPath + "/fw/table") {
+		if fn.Parent() != nil || len(fn.Params) != 2 {
+			continue
+		}
+		cmp, store, rec := false, false, false
+		core.Instrs(fn, func(in ssa.Instruction) {
+			switch x := in.(type) {
+			case *ssa.BinOp:
+				if x.Op == token.EQL || x.Op == token.NEQ {
+					_, okx := core.FieldOf(x.X, "FaceID")
+					_, oky := core.FieldOf(x.Y, "FaceID")
+					if (okx && x.Y == ssa.Value(fn.Params[1])) || (oky && x.X == ssa.Value(fn.Params[1])) {
+						cmp = true
+					}
+				}
+			case *ssa.Store:
+				if _, _, ok := storeToField(in, "RibEntry", "routes"); ok {
+					store = true
+				}
+			case ssa.CallInstruction:
+				if x.Common().StaticCallee() == fn {
+					rec = true
+				}
+			}
+		})
+		if cmp && store && rec {
+			return fn
+		}
+	}
+	return nil
 }
